@@ -1093,7 +1093,17 @@ func ruleR02d(c *Ctx) {
 		c.fatalf("anchor: ForNode case of soyhtml walk not found")
 		return
 	}
-	set := suffixes(goCases["ForNode"], true)
+	// the arm itself, or the helper it hands the loop to: only helpers that are given the loop node are followed
+	// (the generic walker is called from every arm)
+	set := map[string]bool{}
+	for i, n := range c.nodeWithHelpers("soyhtml", goCases["ForNode"], 1) {
+		if i > 0 && !takesNodeType(c, "soyhtml", n, "ForNode") {
+			continue
+		}
+		for k := range suffixes(n, true) {
+			set[k] = true
+		}
+	}
 	looked := map[string]bool{}
 	init := c.mustVarInit("soyhtml", "loopFuncs")
 	if cl, ok := init.(*ast.CompositeLit); ok {
@@ -1493,17 +1503,25 @@ func firstSegment(key ast.Expr, fd *ast.FuncDecl, info *types.Info) (bool, strin
 			obj := info.Uses[id]
 			defs, goodDefs := 0, 0
 			ast.Inspect(fd.Body, func(x ast.Node) bool {
-				as, ok := x.(*ast.AssignStmt)
-				if !ok {
+				var lhs, rhs []ast.Expr
+				switch s := x.(type) {
+				case *ast.AssignStmt:
+					lhs, rhs = s.Lhs, s.Rhs
+				case *ast.ValueSpec:
+					for _, nm := range s.Names {
+						lhs = append(lhs, nm)
+					}
+					rhs = s.Values
+				default:
 					return true
 				}
-				for i, l := range as.Lhs {
+				for i, l := range lhs {
 					li, ok := l.(*ast.Ident)
 					if !ok || (info.Defs[li] != obj && info.Uses[li] != obj) {
 						continue
 					}
 					defs++
-					if len(as.Lhs) == len(as.Rhs) && firstDotCall(as.Rhs[i], of) {
+					if len(lhs) == len(rhs) && firstDotCall(rhs[i], of) {
 						goodDefs++
 					}
 				}
@@ -1828,4 +1846,22 @@ func classifyWriterInit(v ast.Expr, o types.Object, fresh, saved map[types.Objec
 			saved[o] = true
 		}
 	}
+}
+
+// takesNodeType: body is the body of a function of the package one of whose parameters is *ast.<typeName>.
+func takesNodeType(c *Ctx, rel string, body ast.Node, typeName string) bool {
+	p := c.Pkgs[rel]
+	for _, fd := range c.allFuncDecls(rel) {
+		if ast.Node(fd.Body) != body {
+			continue
+		}
+		for _, fl := range fd.Type.Params.List {
+			if tv, ok := p.TypesInfo.Types[fl.Type]; ok {
+				if _, tn, ok := relPkgOfType(tv.Type); ok && tn == typeName {
+					return true
+				}
+			}
+		}
+	}
+	return false
 }
